@@ -1376,6 +1376,21 @@ pub unsafe extern "C" fn time(t: *mut libc::time_t) -> libc::time_t {
     ts.tv_sec
 }
 
+// ----- process identity --------------------------------------------------------
+
+#[no_mangle]
+pub unsafe extern "C" fn getpid() -> libc::pid_t {
+    match cur() {
+        Some(c) => {
+            let _b = Busy::new(c);
+            c.count("getpid");
+            // a simulated process has a simulated pid: a function of its seed
+            (1000 + (c.spec.hash_keys[0] % 30_000)) as libc::pid_t
+        }
+        None => libc::syscall(libc::SYS_getpid) as libc::pid_t,
+    }
+}
+
 // ----- terminal --------------------------------------------------------------
 
 #[no_mangle]
